@@ -218,6 +218,8 @@ Updates(asn4) ==
    \cup {Upd(<<P6[i], P6[j]>>, <<>>, <<>>) : i, j \in 1..6}
    \cup {Upd(<<>>, Base(asn4), <<P6[i], P6[j], P6[k]>>) : i, j, k \in {1, 2, 4, 5}}
    \cup {Upd(<<P6[i]>>, Base(asn4), <<P6[j]>>) : i, j \in 1..6}                           \* announce + withdraw in one message
+   \* path attributes and withdrawn routes but nothing announced (a client that sends a route's attributes with its withdrawal)
+   \cup {Upd(<<P6[i]>>, Base(asn4), <<>>) : i \in 1..6} \cup {Upd(<<P6[3], P6[5]>>, AllOpt(asn4), <<>>)}
    \cup {Upd(<<>>, WithAttr(asn4, a), N1) : a \in AttrValues(asn4)}                       \* every attribute value alone
    \cup {Upd(<<>>, Base(asn4) \o <<OneOfKind(s, asn4), OneOfKind(t, asn4)>>, N1) : s, t \in OptKinds}  \* every pair of kinds (s = t filtered below)
    \cup {Upd(<<>>, AllOpt(asn4), N1), Upd(<<P6[1]>>, AllOpt(asn4), <<P6[1], P6[5]>>)}      \* all together
